@@ -12,9 +12,11 @@ rsync -a --delete --exclude target "$HERE/harness/" "$H/"
 find "$H" -name Cargo.toml -not -path "*/target/*" -exec sed -i "s#\"/repo/#\"$SCRATCH/#g" {} +
 case "$ID" in
   C14) CRATE=c14 ;; C15) CRATE=c15 ;; C16) CRATE=c16 ;; C18) CRATE=c18 ;; C19) CRATE=c19 ;; C17) CRATE=c17 ;;
-  C09|C10|C11|C12) CRATE=vsst ;;
+  C10|C11) CRATE=vsst ;;
+  C09) CRATE=c09 ;;
+  C12) CRATE=c12 ;;
   C01|C02|C03|C04|C05|C07|C08|C13|C20) CRATE=vstore ;;
-  C06) CRATE=vconc ;;
+  C06) CRATE=c06 ;;
   *) echo "unknown property $ID" >&2; exit 2 ;;
 esac
 cd "$H" || exit 2
